@@ -10,7 +10,8 @@ use crate::Cfg;
 use soroban_sdk::{Address, Env, String as SString, Symbol, Val, Vec as SVec};
 use std::collections::{BTreeMap, BTreeSet};
 
-const ROLES: [&str; 4] = ["r0", "r1", "r2", "r3"];
+// (the last role has the empty name: a legal symbol, and the value some code treats as "no role")
+const ROLES: [&str; 5] = ["r0", "r1", "r2", "r3", ""];
 
 #[derive(Clone, Debug)]
 enum Op {
@@ -634,7 +635,7 @@ fn history_many_roles(cfg: &Cfg, rep: &mut Report, h: u64) {
 }
 
 pub fn run(cfg: &Cfg, rep: &mut Report) {
-    rep.rule = "Seeded histories on (a) an AccessControl wrapper exposing the whole trait and one entry point per guard macro, 5 accounts x 4 roles with role-admin chains and cycles, (b) the nft-access-control example, (c) the ownable example, (d) one wrapper driven to and around the documented limit of 256 existing roles (a 257th is refused, a further member of an existing role is not, an emptied role makes room); every call signed by the necessary principal alone (1/2) or a uniformly random subset of all accounts. Distinct case = (contract, entry point, caller kind {admin, role-admin by chain depth, member, stranger}, principal signed?, outcome).".into();
+    rep.rule = "Seeded histories on (a) an AccessControl wrapper exposing the whole trait and one entry point per guard macro, 5 accounts x 5 roles (one of them with the empty name) with role-admin chains and cycles, (b) the nft-access-control example, (c) the ownable example, (d) one wrapper driven to and around the documented limit of 256 existing roles (a 257th is refused, a further member of an existing role is not, an emptied role makes room); every call signed by the necessary principal alone (1/2) or a uniformly random subset of all accounts. Distinct case = (contract, entry point, caller kind {admin, role-admin by chain depth, member, stranger}, principal signed?, outcome).".into();
     let nh = cfg.pick(40u64, 900);
     let steps = cfg.pick(150usize, 300);
     for k in 0..nh {
